@@ -148,6 +148,16 @@ CHECKS["C19"] = dict(
     note=NOTE_BASE + "Proof over a modelled runtime: asyncio scheduling, Lock fairness and future wake-ups are modelled and validated by exhaustive bounded schedule correspondence.",
     technique="Coq proof (scheduler invariant over all schedules) over a runtime model validated by exhaustive schedule exploration of the real event loop",
     design="4/C19")
+CHECKS["C18"] = dict(
+    text="Theorems over the router model under the connection-lifecycle translation (Async/Lifecycle.v: opening is registration, a peer message is a "
+         "send, and EVERY way a connection ends - EOF, read error, EOF inside a message, junk, handler exception - is an unregistration): "
+         "ended_connection_forgotten, no_further_delivery_to_it, others_keep_registration_and_settings, others_are_served_per_policy, "
+         "reconnect_starts_from_defaults, for every history of any length. That every ending really is an unregistration is the modelled part, "
+         "VALIDATED by fault injection: real TCP and TTY connection handlers on fake streams in a running event loop, each fault kind injected at "
+         "every step index of a session script, compared step by step (deliveries, router.clients, blob_routing) with the extracted model.",
+    note=NOTE_BASE + "Proof over a modelled runtime: the translation of connection endings to unregistration is validated by fault-injection correspondence, not verified.",
+    technique="Coq proof (router lifecycle theorems for every history) + fault-injection correspondence of the real connection handlers with the extracted model",
+    design="4/C18")
 PENDING = {}
 props = [json.loads(l) for l in open(os.path.join(V, "properties.jsonl"))]
 checks, na = [], []
